@@ -258,7 +258,7 @@ class Interner(object):
     def a(self, arr):
         if arr is None:
             return 0
-        b = np.ascontiguousarray(arr).tobytes() + str(np.asarray(arr).dtype).encode() + str(np.shape(arr)).encode()
+        b = num.canon_bytes(arr)
         if b not in self.arr:
             self.arr[b] = len(self.arr) + 1
         return self.arr[b]
@@ -326,6 +326,8 @@ def normalise(sc, lg):
     eps = num.eps_of(dt)
     out = []
     target_stack = []
+    tdirs = []
+    ev_hist = {}
     for e in evs:
         n = e["e"]
         o = {"e": n}
@@ -340,6 +342,7 @@ def normalise(sc, lg):
             fin = bool(np.isfinite(float(tgt)))
             target_stack.append(tgt)
             tc = s["tc"]
+            tdirs.append((num.sign(num.frac(tgt) - num.frac(tc)) if fin else (1 if float(tgt) > 0 else -1)))
             o.update(target=(it.r(tgt) if fin else 0), finite=fin, inf=(0 if fin else (1 if float(tgt) > 0 else -1)),
                      depth=e["depth"], nevents=e["nevents"], ncb=e["ncb"],
                      dir=(num.sign(num.frac(tgt) - num.frac(tc)) if fin else (1 if float(tgt) > 0 else -1)),
@@ -349,9 +352,11 @@ def normalise(sc, lg):
                      spanm=(it.m(np.asarray(tgt, dtype=dt) - np.asarray(tc, dtype=dt)) if fin and num.frac(np.asarray(tgt, dtype=dt) - np.asarray(tc, dtype=dt)) in it.rk else -1))
         elif n in ("IntegrateRet", "IntegrateRaise"):
             tgt = target_stack.pop() if target_stack else None
+            if tdirs:
+                tdirs.pop()
             o["depth"] = e["depth"]
             fin = tgt is not None and bool(np.isfinite(float(tgt)))
-            o["endUlps"] = num.ulp_distance(s["tc"], tgt, dt) if fin else -1
+            o["endUlps"] = num.gap_units(s["tc"], tgt, [tgt], dt) if fin else -1
             if n == "IntegrateRaise":
                 o["exc"] = e["exc"]
                 o["chain"] = e["chain"]
@@ -388,6 +393,13 @@ def normalise(sc, lg):
             o["exc"] = e["exc"]
         elif n == "Counter":
             o.update(old=int(e["old"]), new=int(e["new"]))
+            bu = 0
+            if target_stack and np.isfinite(float(target_stack[-1])) and int(e["new"]) == int(e["old"]) + 1:
+                tgt = target_stack[-1]
+                d = tdirs[-1] if tdirs else 0
+                if d * (num.frac(s["tc"]) - num.frac(tgt)) > 0:
+                    bu = num.gap_units(s["tc"], tgt, [tgt], dt)
+            o["beyondUlps"] = bu
         elif n == "DtAssign":
             o.update(dt=it.r(e["dt"]), dtm=it.m(e["dt"]))
         elif n == "Status":
@@ -403,7 +415,11 @@ def normalise(sc, lg):
             o.update(prev=it.r(e["prev"]), next=it.r(e["next"]), active=e["active"], roots=[it.r(r) for r in e["roots"]],
                      terminate=e["terminate"])
         elif n == "EventRec":
-            o.update(t=it.r(e["t"]), ev=int(getattr(e["ev"], "_vf_idx", -1)), n=int(e["n"]))
+            evi = int(getattr(e["ev"], "_vf_idx", -1))
+            prevs = ev_hist.setdefault(evi, [])
+            near = min([num.ulp_distance(e["t"], p, dt) for p in prevs if num.frac(p) != num.frac(e["t"])] or [-1])
+            prevs.append(e["t"])
+            o.update(t=it.r(e["t"]), ev=evi, n=int(e["n"]), nearUlps=int(near))
         elif n in ("Callback", "CallbackRet"):
             o["i"] = int(e["i"])
         elif n == "Interp":
@@ -422,8 +438,11 @@ def normalise(sc, lg):
                      nfev=int(fl["nfev"]), njev=int(fl["njev"]), y0Untouched=fl["y0Untouched"],
                      dtypeOk=(fl["dtype"] == str(dt) and fl["tdtype"] == str(dt)), finite=fl["finite"],
                      t0=it.r(fl["t0"]), tf=(it.r(fl["tf"]) if np.isfinite(float(fl["tf"])) else 0),
-                     site=(e.get("site") or "none"), ncalls=int(e.get("ncalls", 0)))
-        elif n in ("ResetCall", "ResetRet", "New", "Rhs"):
+                     site=(e.get("site") or "none"), ncalls=int(e.get("ncalls", 0)),
+                     lastEvUlps=(num.gap_units(fl["t"][-1], fl["events"][-1][0], [fl["events"][-1][0]], dt) if len(fl["events"]) else -1))
+        elif n == "ResetRet":
+            ev_hist.clear()
+        elif n in ("ResetCall", "New", "Rhs"):
             pass
         out.append(o)
     fam = family_of(sc["method"])
